@@ -36,11 +36,11 @@ type shellModel struct {
 	pending                          map[int64]bool // EOF verdict: Next returns true
 	complete                         map[int64]bool
 	// roles, resolved from the lookup in Scanner.Next (not from identifier names)
-	tableVar, classVar            string
-	stateT, classT, actionT       *types.Named
-	stF                           *types.Var
-	actionOut                     map[int64][]string // output symbols per action constant, derived from the interpreter arm
-	interpOK                      bool               // the interpreter loop, the end-of-input verdict and Complete were all read
+	tableVar, classVar      string
+	stateT, classT, actionT *types.Named
+	stF                     *types.Var
+	actionOut               map[int64][]string // output symbols per action constant, derived from the interpreter arm
+	interpOK                bool               // the interpreter loop, the end-of-input verdict and Complete were all read
 }
 
 // shellRoles finds, in Scanner.Next, the lookup  T[s.f][C[b]]  and resolves
